@@ -133,10 +133,16 @@ func (e *c02env) tagOfErr(err error) string {
 	if err == nil {
 		return "<nil error>"
 	}
-	for p, x := range e.errs {
-		if errors.Is(err, x) {
-			return fmt.Sprintf("pos%d", p)
+	// (positions in ascending order, never in map order; an error that carries the sentinels of SEVERAL positions -
+	// errors.Join of the first and a later failure - is not "that operand's own error value unchanged")
+	var hits []string
+	for p := 0; p < len(e.pos)+2; p++ {
+		if x, ok := e.errs[p]; ok && errors.Is(err, x) {
+			hits = append(hits, fmt.Sprintf("pos%d", p))
 		}
+	}
+	if len(hits) > 0 {
+		return strings.Join(hits, "+")
 	}
 	if errors.Is(err, fp.ErrOptionEmpty) {
 		return "lib:empty"
